@@ -65,7 +65,8 @@ int main(void) {
       setenv("UV_THREADPOOL_SIZE", num, 1);
       if (uv_loop_init(&pl) || uv_sem_init(&p_started, 0) || uv_sem_init(&p_go, 0)) { printf("initfail\n"); _exit(0); }
       for (i = 0; i < k; i++) { uv__req_register(&pl); uv__work_submit(&pl, &pw[i], UV__WORK_SLOW_IO, p_block, p_done); }
-      run = k < (n + 1) / 2 ? k : (n + 1) / 2;
+      /* as many as the library's own cap lets run (the cap itself is compared elsewhere) */
+      run = k < (int) slow_work_thread_threshold() ? k : (int) slow_work_thread_threshold();
       for (i = 0; i < run; i++) uv_sem_wait(&p_started);
       fflush(stdout);
       pid = fork();
@@ -73,9 +74,8 @@ int main(void) {
       for (i = 0; i < k; i++) uv_sem_post(&p_go);
       waitpid(pid, &st, 0);
       if (WIFSIGNALED(st)) printf("%s\n", WTERMSIG(st) == SIGALRM ? "hang" : "crash");
-      uv_run(&pl, UV_RUN_DEFAULT);
       fflush(stdout);
-      _exit(0);
+      _exit(0);                         /* the parent's own requests are of no interest */
     }
     if (outer < 0 || waitpid(outer, &st, 0) < 0) { printf("forkfail\n"); continue; }
     if (WIFSIGNALED(st)) printf("%s\n", WTERMSIG(st) == SIGALRM ? "hang" : "crash");
